@@ -131,6 +131,22 @@ ControlClose(c) ==
   /\ UNCHANGED nextId
   /\ out' = {[k |-> "closed", id |-> id, what |-> "peerconn"] : id \in ConnsOf(c)}
 
+(* Server.Close: every listener and manager is closed, nothing remains; what a control connection *)
+(* that was accepted earlier tries afterwards has no effect                                       *)
+Down == \E c \in Clients : "down" \in DOMAIN alloc[c]
+ServerClose ==
+  /\ ~Down
+  /\ last' = [a |-> "ServerClose"]
+  /\ alloc' = [c \in Clients |-> [live |-> FALSE, down |-> TRUE]]
+  /\ perm'  = [c \in Clients |-> [i \in PeerIPs |-> 0]]
+  /\ conn'  = [id \in Ids |-> NoConn]
+  /\ UNCHANGED nextId
+  /\ out' = {[k |-> "closed", id |-> id, what |-> "peerconn"] : id \in {x \in Ids : conn[x].open}}
+ProbeAfterClose(c, u) ==
+  /\ Down
+  /\ last' = [a |-> "ProbeAfterClose", c |-> c, u |-> u]
+  /\ UNCHANGED state /\ out' = {}          \* no success, nothing created
+
 Rems == {alloc[c].rem : c \in {x \in Clients : alloc[x].live}}
         \cup UNION {{perm[c][i] : i \in {j \in PeerIPs : perm[c][j] > 0}} : c \in Clients}
         \cup {conn[id].rem : id \in {x \in Ids : conn[x].open /\ ~conn[x].bound}}
@@ -150,7 +166,7 @@ Advance(d) ==
         /\ UNCHANGED nextId
         /\ out' = {[k |-> "closed", id |-> id, what |-> "peerconn"] : id \in gone}
 
-Next ==
+LiveNext ==
   \/ \E c \in Clients, u \in Users : Allocate(c, u)
   \/ \E c \in Clients, u \in Users, i \in PeerIPs : CreatePermission(c, u, i)
   \/ \E c \in Clients, u \in Users, p \in Peers : Connect(c, u, p)
@@ -160,6 +176,10 @@ Next ==
   \/ \E id \in Ids, side \in {"client", "peer"} : CloseData(id, side)
   \/ \E c \in Clients : ControlClose(c)
   \/ \E d \in Jumps : Advance(d)
+Next ==
+  \/ ServerClose
+  \/ \E c \in Clients, u \in Users : ProbeAfterClose(c, u)
+  \/ (~Down /\ LiveNext)
 Spec == Init /\ [][Next]_vars
 View == state
 DepthBound == TLCGet("level") <= MaxDepth
@@ -168,6 +188,7 @@ DepthBound == TLCGet("level") <= MaxDepth
 TypeOK == \A id \in Ids : conn[id].open => /\ alloc[conn[id].owner].live
                                            /\ (conn[id].bound <=> conn[id].rem = 0)
                                            /\ id < nextId
+C15_NothingAfterClose == Down => \A id \in Ids : ~conn[id].open
 \* an id names at most one peer connection, ever (ids are never reused: nextId only grows)
 C16_UniqueIds == [][nextId' >= nextId /\ \A id \in Ids : (conn[id].open /\ conn'[id].open) =>
                        (conn'[id].owner = conn[id].owner /\ conn'[id].peer = conn[id].peer)]_vars
